@@ -23,7 +23,12 @@
    A timeout of recv_timeout is an environment label (any idle timeout).
    Jobs have identities (index into [jobs]); a job whose closure panics is
    caught by the closure push_blocking builds (catch_unwind_io) and travels to
-   the submitter's completed channel as an io::Error.  No proofs here. *)
+   the submitter's completed channel as an io::Error.  Delivery is the pair
+   `completed.send(entry); waker.wake()` of that closure: two consecutive labels
+   of the worker (EEnd, EWake), the wake without any condition.  The bound is a
+   property of ONE pool object ([st] is one pool): submitters that are to share
+   a limit (the runtimes of a compio-dispatcher and its dispatch_blocking) must
+   be dispatchers of the same [st].  No proofs here. *)
 From Compio.Model Require Import Base.
 
 (* program counter of a dispatcher thread (a driver thread inside
